@@ -9,7 +9,7 @@ from common import Driver, DriverFailure, digest
 
 LEVEL = "proof"
 MANIFEST = dict(
-    text='Machine-checked Lean 4 proof over a hand model of config.py (tables regenerated from the source on every run): '
+    text='Machine-checked Lean 4 proof over a hand model of config.py (tables regenerated from the source on every run):  config_change_state_inventory: the facade keeps no remembered mode.'
          'set_config_mode installs every member of the chosen table whatever the live object held before (no mixture; the three '
          'classes and the live object have exactly the CONFIG_MEMBERS attributes); the facade selects active iff some pump or blower '
          'is on; and, for ALL sequences of config_sleep / set_config_mode / tick / task-cancel steps with any number of concurrent '
@@ -611,7 +611,7 @@ def check_facade_real(ctx):
 
 # ----------------------------------------------------------------------------------------------- run / replay
 def run(ctx):
-    st = translate.run(["ConfigTables"])
+    st = translate.run(["ConfigTables", "Skeletons"])
     ctx.cov["translator"] = st
     if st["ConfigTables"] != "ok":
         ctx.obligation_broken("translate:ConfigTables", st["ConfigTables"])
